@@ -113,6 +113,20 @@ def r12_1(ctx: Ctx, cg: CallGraph) -> None:
             params = [a.arg for a in fi.node.args.args]
             if not s.args or arg not in params:
                 ctx.violation("R12.1", short, f"context document {arg}", fi.where(s), f"{short}: the colour context is not set from the document being encoded ({arg})")
+    # nobody else re-binds the context: the dense table is generated from the document given to `encode`
+    for fi2 in pm.iter_funcs():
+        if fi2.cls == "ColorService" or fi2.short == "UnifiedRTFEncoder.encode":
+            continue
+        for c in walk_no_nested(fi2.node):
+            if isinstance(c, ast.Call) and dotted(c.func).split(".")[-1] == "set_document_context":
+                from ..cfg import CFG as _CFG
+                g2 = _CFG(fi2.node)
+                live = g2.reachable(g2.entry)
+                if not any(id(nd) in live for nd in g2.node_containing(c)):
+                    continue
+                ctx.violation("R12.1", fi2.short, "context re-bound " + unparse(c)[:60], fi2.where(c),
+                              f"{fi2.short} re-binds the colour context (`{unparse(c)[:60]}`); in multi-section documents it receives a per-section copy, so indices are "
+                              "numbered against a section's palette while the colour table is generated from the whole document")
     for short in ("UnifiedRTFEncoder.encode", "UnifiedRTFEncoder._encode_multi_section", "UnifiedRTFEncoder._encode_figure_only"):
         fi = pm.func(short)
         ect = [c for c in ast.walk(fi.node) if isinstance(c, ast.Call) and dotted(c.func).endswith("encode_color_table")]
